@@ -207,63 +207,22 @@ static int find_rio_in (
 	return 0;
 }
 
-static HAWK_INLINE int resolve_rs (hawk_rtx_t* rtx, hawk_val_t* rs, hawk_oocs_t* rrs)
+static HAWK_INLINE void resolve_rs (hawk_rtx_t* rtx, hawk_oocs_t* rrs)
 {
-	int ret = 0;
-	hawk_val_type_t rs_vtype;
-
-
-	rs_vtype = HAWK_RTX_GETVALTYPE(rtx, rs);
-
-	switch (rs_vtype)
-	{
-		case HAWK_VAL_NIL:
-			rrs->ptr = HAWK_NULL;
-			rrs->len = 0;
-			break;
-
-		case HAWK_VAL_STR:
-			rrs->ptr = ((hawk_val_str_t*)rs)->val.ptr;
-			rrs->len = ((hawk_val_str_t*)rs)->val.len;
-			break;
-
-		default:
-			rrs->ptr = hawk_rtx_valtooocstrdup(rtx, rs, &rrs->len);
-			if (rrs->ptr == HAWK_NULL) ret = -1;
-			break;
-	}
-
-	return ret;
+	/* the text that was made of RS when it was assigned. set_global() has
+	 * compiled a regular expression into rtx->gbl.rs if this text is longer
+	 * than a character. converting the value of RS again here can give another
+	 * text and another way of reading than what the assignment prepared for
+	 * - RS = 2.5 followed by a change of CONVFMT for instance.
+	 * ptr is HAWK_NULL while RS is nil */
+	*rrs = rtx->gbl.rstext;
 }
 
-static HAWK_INLINE int resolve_brs (hawk_rtx_t* rtx, hawk_val_t* brs, hawk_bcs_t* rrs)
+static HAWK_INLINE void resolve_brs (hawk_rtx_t* rtx, hawk_bcs_t* rrs)
 {
-	/* record separator for bytes reading */
-
-	int ret = 0;
-	hawk_val_type_t brs_vtype;
-
-	brs_vtype = HAWK_RTX_GETVALTYPE(rtx, brs);
-
-	switch (brs_vtype)
-	{
-		case HAWK_VAL_NIL:
-			rrs->ptr = HAWK_NULL;
-			rrs->len = 0;
-			break;
-
-		case HAWK_VAL_MBS:
-			rrs->ptr = ((hawk_val_mbs_t*)brs)->val.ptr;
-			rrs->len = ((hawk_val_mbs_t*)brs)->val.len;
-			break;
-
-		default:
-			rrs->ptr = hawk_rtx_valtobcstrdup(rtx, brs, &rrs->len);
-			if (rrs->ptr == HAWK_NULL) ret = -1;
-			break;
-	}
-
-	return ret;
+	/* record separator for bytes reading. the same text in bytes. set_global()
+	 * has compiled a regular expression if it is longer than a byte */
+	*rrs = rtx->gbl.rsbtext;
 }
 
 static HAWK_INLINE int match_long_rs (hawk_rtx_t* rtx, hawk_ooecs_t* buf, hawk_rio_arg_t* p)
@@ -408,7 +367,6 @@ int hawk_rtx_readio (hawk_rtx_t* rtx, hawk_in_type_t in_type, const hawk_ooch_t*
 	hawk_rio_impl_t handler;
 	int ret;
 
-	hawk_val_t* rs;
 	hawk_oocs_t rrs;
 
 	hawk_oow_t line_len = 0;
@@ -429,14 +387,7 @@ int hawk_rtx_readio (hawk_rtx_t* rtx, hawk_in_type_t in_type, const hawk_ooch_t*
 	hawk_ooecs_clear (buf);
 
 	/* get the record separator */
-	rs = hawk_rtx_getgbl(rtx, HAWK_GBL_RS);
-	hawk_rtx_refupval (rtx, rs);
-
-	if (resolve_rs(rtx, rs, &rrs) <= -1)
-	{
-		hawk_rtx_refdownval (rtx, rs);
-		return -1;
-	}
+	resolve_rs (rtx, &rrs);
 
 	ret = 1;
 
@@ -718,9 +669,6 @@ int hawk_rtx_readio (hawk_rtx_t* rtx, hawk_in_type_t in_type, const hawk_ooch_t*
 		}
 	}
 
-	if (rrs.ptr && HAWK_RTX_GETVALTYPE(rtx, rs) != HAWK_VAL_STR) hawk_rtx_freemem (rtx, rrs.ptr);
-	hawk_rtx_refdownval (rtx, rs);
-
 	return ret;
 }
 
@@ -731,7 +679,6 @@ int hawk_rtx_readiobytes (hawk_rtx_t* rtx, hawk_in_type_t in_type, const hawk_oo
 	hawk_rio_impl_t handler;
 	int ret;
 
-	hawk_val_t* brs;
 	hawk_bcs_t rrs;
 
 	hawk_oow_t line_len = 0;
@@ -752,14 +699,7 @@ int hawk_rtx_readiobytes (hawk_rtx_t* rtx, hawk_in_type_t in_type, const hawk_oo
 	hawk_becs_clear (buf);
 
 	/* get the record separator */
-	brs = hawk_rtx_getgbl(rtx, HAWK_GBL_RS);
-	hawk_rtx_refupval (rtx, brs);
-
-	if (resolve_brs(rtx, brs, &rrs) <= -1)
-	{
-		hawk_rtx_refdownval (rtx, brs);
-		return -1;
-	}
+	resolve_brs (rtx, &rrs);
 
 	ret = 1;
 
@@ -1040,9 +980,6 @@ int hawk_rtx_readiobytes (hawk_rtx_t* rtx, hawk_in_type_t in_type, const hawk_oo
 			}
 		}
 	}
-
-	if (rrs.ptr && HAWK_RTX_GETVALTYPE(rtx, brs) != HAWK_VAL_MBS) hawk_rtx_freemem (rtx, rrs.ptr);
-	hawk_rtx_refdownval (rtx, brs);
 
 	return ret;
 }
